@@ -212,8 +212,20 @@ class Device:
             self.violations.append('%s address %#x not page aligned' % (what, addr))
 
 
-def firmware(n):
-    return bytes(((i * 7 + 13) % 255) + 1 for i in range(n))
+def firmware(n, kind='ramp'):
+    """image of n bytes.  ramp: no 0x00 byte anywhere (so padding is visible); zeros / ff: constant images (an erased page reads 0xFF, the padding is 0x00);
+    zpage / ffpage: the ramp with every second page (and the tail) replaced by 0x00 / 0xFF; lastzero: the ramp ending in one 0x00 byte"""
+    ramp = bytes(((i * 7 + 13) % 255) + 1 for i in range(n))
+    if kind == 'ramp':
+        return ramp
+    if kind in ('zeros', 'ff'):
+        return (b'\x00' if kind == 'zeros' else b'\xff') * n
+    if kind in ('zpage', 'ffpage'):
+        fill = 0 if kind == 'zpage' else 0xff
+        return bytes(fill if (i // PAGE) % 2 == 1 or i >= (n // PAGE) * PAGE else b for i, b in enumerate(ramp))
+    if kind == 'lastzero':
+        return ramp[:-1] + b'\x00' if n else ramp
+    raise KeyError(kind)
 
 
 _FAKE = {}
@@ -247,7 +259,7 @@ class Run:
     pass
 
 
-def run_host(pages, fw, prefix=(), faults=None, lenient=False, uniform=None, device_id='28e9:0189'):
+def run_host(pages, fw, prefix=(), faults=None, lenient=False, uniform=None, device_id='28e9:0189', via='file'):
     """one complete execution of the real dfu.cli_main() against the device model -> Run"""
     dfu = install_fake_usb()
     ch = Chooser(prefix)
@@ -260,14 +272,25 @@ def run_host(pages, fw, prefix=(), faults=None, lenient=False, uniform=None, dev
     _time.sleep = clock.sleep
     if getattr(dfu, 'sleep', None) is real_sleep:
         dfu.sleep = clock.sleep
-    # the firmware is a real file (however the host chooses to read it); its content is a function of its length, so it is written once per length
+    # the firmware is a real file (however the host chooses to read it), written once per content
     from mc import kernel
     d = os.path.join(kernel.scratch('_dfu'), 'fw')
     os.makedirs(d, exist_ok=True)
-    path = os.path.join(d, 'fw_%d.bin' % len(fw))
+    import hashlib
+    path = os.path.join(d, 'fw_%d_%s.bin' % (len(fw), hashlib.sha1(fw).hexdigest()[:10]))
     if not os.path.exists(path) or os.path.getsize(path) != len(fw):
         with open(path, 'wb') as f:
             f.write(fw)
+    feeder = None
+    if via == 'fifo':
+        # the firmware arrives through a named pipe (what `bronzebeard-dfu id <(generator)` hands over): its size is only known once it has been read
+        import subprocess
+        fifo = os.path.join(d, 'fw_%d.pipe' % os.getpid())
+        if os.path.exists(fifo):
+            os.remove(fifo)
+        os.mkfifo(fifo)
+        feeder = subprocess.Popen(['/bin/sh', '-c', 'exec cat "$0" > "$1"', path, fifo], stdin=subprocess.DEVNULL, stdout=subprocess.DEVNULL, stderr=subprocess.DEVNULL)
+        path = fifo
     out = io.StringIO()
     old_argv = sys.argv
     sys.argv = ['bronzebeard-dfu', device_id, path]
@@ -289,6 +312,11 @@ def run_host(pages, fw, prefix=(), faults=None, lenient=False, uniform=None, dev
     finally:
         sys.argv = old_argv
         _time.sleep = real_sleep
+        if feeder is not None:
+            if feeder.poll() is None:
+                feeder.kill()           # the host never opened the pipe (or stopped reading)
+            feeder.wait()
+            os.remove(path)
     r.dev, r.chooser, r.clock, r.stdout = dev, ch, clock, out.getvalue()
     r.done = 'done!' in r.stdout
     return r
